@@ -94,6 +94,22 @@ def _common(obj, kind, mode, desc, rec):
     if any(list(q) != sorted(q) for q in desc['qD']):
         rec.label('unsorted_bond_charges')
     rec.nontrivial = bool(n0 > 1e-9 * tmag and L >= 2 and max(D_old) >= 2)
+    def again(what):
+        """The object as it stands is the new 'original': factor, dense form, isometries and unit norm judged once more."""
+        ve = np.asarray(to_dense([np.asarray(a, dtype=complex) for a in obj.A]))
+        ne = float(np.linalg.norm(ve))
+        nrm_e = float(np.real(obj.orthonormalize(mode=mode)))
+        require(abs(nrm_e - ne) <= TOL * max(ne, 1e-300), 'orthonormalize ' + what + ' returns a wrong factor (stale or assumed canonical form?)', nrm=nrm_e, norm=ne)
+        vf = np.asarray(to_dense([np.asarray(a, dtype=complex) for a in obj.A]))
+        require(np.linalg.norm(nrm_e * vf - ve) <= TOL * max(ne, 1e-300), 'orthonormalize ' + what + ' changes the represented object')
+        require(abs(float(np.linalg.norm(vf)) - 1) <= TOL, 'object does not have unit norm after orthonormalize ' + what, err=abs(float(np.linalg.norm(vf)) - 1))
+        for i, a in enumerate(obj.A):
+            M = a.reshape(-1, a.shape[-1]) if mode == 'left' else np.moveaxis(a, bax, -1).reshape(-1, a.shape[bax])
+            G = M.conj().T @ M
+            e = float(np.linalg.norm(G - np.identity(G.shape[0])))
+            require(e <= TOL * max(1, G.shape[0]), 'site tensor is not an isometry after orthonormalize ' + what, site=i, err=e)
+        return vf
+
     # a user-style edit of a site tensor after the first call, then the same call again: the object must be treated like
     # any other (no stale "already canonical" knowledge); judged against the dense form right before the second call
     if n0 > 1e-9 * tmag and np.issubdtype(obj.A[0].dtype, np.inexact):
@@ -102,13 +118,16 @@ def _common(obj, kind, mode, desc, rec):
             obj.A[k] = 2.5 * obj.A[k]
         else:
             obj.A[k] = np.array(obj.A[k], dtype=complex); obj.A[k] *= (0.5 - 1.5j)
-        ve = np.asarray(to_dense([np.asarray(a, dtype=complex) for a in obj.A]))
-        ne = float(np.linalg.norm(ve))
-        nrm_e = float(np.real(obj.orthonormalize(mode=mode)))
-        require(abs(nrm_e - ne) <= TOL * max(ne, 1e-300), 'orthonormalize after a tensor edit returns a wrong factor (stale state?)', nrm=nrm_e, norm=ne)
-        vf = np.asarray(to_dense([np.asarray(a, dtype=complex) for a in obj.A]))
-        require(np.linalg.norm(nrm_e * vf - ve) <= TOL * max(ne, 1e-300), 'orthonormalize after a tensor edit changes the represented object')
-        v1 = vf
+        v1 = again('after a tensor edit')
+        # nearly canonical input: every tensor is an isometry up to a relative deviation far above rounding but small
+        # (1e-9 .. 5e-6); the factor must still be the norm to rounding accuracy and the result exactly canonical
+        eps = [2e-6, -3e-7, 1e-9, 5e-6][(desc['seed'] // 2) % 4]
+        if (desc['seed'] // 8) % 2:
+            obj.A[k] = (1 + eps) * obj.A[k]
+        else:
+            obj.A = [(1 + eps) * a for a in obj.A]
+        v1 = again('of a nearly canonical object')
+        rec.label('nearly_canonical_input')
     # second application is idempotent up to rounding: factor 1, same dense form
     if n0 > 1e-9 * tmag:
         nrm2 = float(np.real(obj.orthonormalize(mode=mode)))
